@@ -8,6 +8,7 @@
 import YaraModel.Lemmas.ArenaRoundTrip
 import YaraModel.Lemmas.ArenaChunks
 import YaraModel.Lemmas.ArenaExample
+import YaraModel.Lemmas.ArenaExec
 namespace YaraModel.Arena
 open YaraModel.Gen.ArenaLayout
 
@@ -61,6 +62,72 @@ theorem load_chunked (cfg : LoaderCfg) (alloc : Nat → Nat) (cs : List Bytes) :
 /-- … in particular a saved image delivered one byte at a time -/
 example : loadVia loaderCfg exAlloc ((save exArena).map (fun b => [b])) = load loaderCfg exAlloc (save exArena) := by
   rw [load_chunked]; congr 1
+
+/-- **Round trip for every arena reachable through the API.** Start from any arena obeying the protocol, run any
+    sequence of client operations inside the protocol (`arun` defined = `OpsOK`; result `x'`, buffers of at most
+    2 GiB) under any configuration and any admissible realloc schedule: the arena `a` reached is such that saving
+    it fires no assert and leaves it as it was, and loading the image — under every loader configuration and every
+    allocator handing out non-null, non-overlapping blocks — succeeds and gives an arena with the same abstract
+    content as `a` (which is `x'`: what the address-free machine computed), hence the same bytes when saved again. -/
+theorem load_save_run (cfg : Cfg) (bases : List Nat) (ops : List Op) {a₀ a : Arena} (h₀ : WF a₀) (hi : 0 < a₀.init)
+    {x' : AArena} {outs outs' : List Out} (hspec : arun (abs a₀) ops = some (x', outs))
+    (hs2 : ∀ d ∈ x'.1, d.length ≤ 2 ^ 31) (had : AdmRun cfg bases a₀ ops)
+    (hr : runOut cfg bases a₀ ops = .ok (a, outs'))
+    (lcfg : LoaderCfg) (alloc : Nat → Nat) (hA : RangesOk (loadedBufs alloc 0 x'.1)) (hnz : ∀ i, alloc i ≠ 0) :
+    saveFull a = .ok (save a, a) ∧
+      ∃ a', load lcfg alloc (save a) = .ok a' ∧ abs a' = x' ∧ abs a' = abs a ∧ save a' = save a := by
+  rcases runOut_sim cfg ops bases a₀ x' outs h₀ hi hspec had with ⟨b, e, w, ab⟩ | e
+  · rw [e] at hr
+    simp only [Except.ok.injEq, Prod.mk.injEq] at hr
+    obtain ⟨rfl, _⟩ := hr
+    have hbod : bodies (toRefs b) = x'.1 := congrArg Prod.fst ab
+    have hs2' : ∀ c ∈ b.bufs, c.data.length ≤ 2 ^ 31 := by
+      intro c hc
+      have : c.data.length ∈ (bodies b).map (·.length) := by
+        simp only [bodies, List.map_map, List.mem_map, Function.comp]
+        exact ⟨c, hc, rfl⟩
+      rw [← bodies_toRefs_lengths, hbod, List.mem_map] at this
+      obtain ⟨d, hd, hl⟩ := this
+      rw [← hl]; exact hs2 d hd
+    obtain ⟨a', h1, h2⟩ := load_save lcfg w hs2' alloc (by rw [hbod]; exact hA) hnz
+    exact ⟨save_no_assert w, a', h1, by rw [h2, ab], h2, save_address_free h2⟩
+  · rw [e] at hr; cases hr
+
+/-- … in particular for everything built from `yr_arena_create(n, init)`: no well-formedness assumption is left,
+    only the protocol on the operation sequence (decidable) and the allocators' contracts. -/
+theorem load_save_reachable (n : Nat) (hn : n ≤ maxBuffers) (init : Nat) (hi : 0 < init) (cfg : Cfg) (bases : List Nat)
+    (ops : List Op) {a : Arena} {x' : AArena} {outs outs' : List Out} (hspec : arun (aCreate n) ops = some (x', outs))
+    (hs2 : ∀ d ∈ x'.1, d.length ≤ 2 ^ 31) (had : AdmRun cfg bases (create n init) ops)
+    (hr : runOut cfg bases (create n init) ops = .ok (a, outs'))
+    (lcfg : LoaderCfg) (alloc : Nat → Nat) (hA : RangesOk (loadedBufs alloc 0 x'.1)) (hnz : ∀ i, alloc i ≠ 0) :
+    saveFull a = .ok (save a, a) ∧
+      ∃ a', load lcfg alloc (save a) = .ok a' ∧ abs a' = x' ∧ abs a' = abs a ∧ save a' = save a :=
+  load_save_run cfg bases ops (wf_create init hn) hi (by rw [abs_create]; exact hspec) hs2 had hr lcfg alloc hA hnz
+
+/-- the hypotheses are satisfiable: the 17-operation session `exOps` (every kind of operation, growth between
+    storing a pointer and reading it back) run with initial size 1 and loaded at 1 MiB-spaced addresses -/
+example : ∃ a a' outs, runOut {} exBases₁ (create 2 1) exOps = .ok (a, outs) ∧
+    load loaderCfg exAlloc (save a) = .ok a' ∧ abs a' = abs a ∧ a.relocs.length = 5 := by
+  have had : AdmRun {} exBases₁ (create 2 1) exOps := admRun_of_check _ _ _ _ (by decide +kernel)
+  have c : (match arun (aCreate 2) exOps with
+      | some (x, _) => decide ((∀ d ∈ x.1, d.length ≤ 2 ^ 31) ∧ RangesOk (loadedBufs exAlloc 0 x.1) ∧ x.2.length = 5)
+      | none => false) = true := by decide +kernel
+  cases hspec : arun (aCreate 2) exOps with
+  | none => rw [hspec] at c; cases c
+  | some p =>
+    obtain ⟨x', outs⟩ := p
+    rw [hspec] at c
+    simp only [decide_eq_true_eq] at c
+    rcases runOut_sim {} exOps exBases₁ (create 2 1) x' outs (wf_create 1 (by decide)) (by decide)
+      (by rw [abs_create]; exact hspec) had with ⟨a, hr, _, ha⟩ | herr
+    · obtain ⟨_, a', h1, _, h3, _⟩ := load_save_reachable 2 (by decide) 1 (by decide) {} exBases₁ exOps hspec c.1 had hr
+        loaderCfg exAlloc c.2.1 (by intro i; unfold exAlloc; omega)
+      refine ⟨a, a', outs, hr, h1, h3, ?_⟩
+      have : a.relocs = x'.2 := congrArg Prod.snd ha
+      rw [this]; exact c.2.2
+    · exact absurd herr (by
+        have e : (match runOut {} exBases₁ (create 2 1) exOps with | .ok _ => true | .error _ => false) = true := by decide +kernel
+        intro h; rw [h] at e; cases e)
 
 /-- the hypotheses of the round trip are satisfiable: the example arena, loaded at 1 MiB-spaced addresses -/
 example : ∃ a', load loaderCfg exAlloc (save exArena) = .ok a' ∧ abs a' = abs exArena :=
